@@ -259,6 +259,11 @@ fn layout(tier: Tier) -> Layout {
     Layout { programs: s.total(), boundary: boundary_programs().len() as u64, deep: (SHAPES.len() * DEPTHS.len() * DEEP_OPS.len() * 2) as u64 }
 }
 
+/// token-corpus inputs executed: everything before the K4 length-6 tier in the quick tier, all of them in the thorough tier
+fn token_total(tier: Tier) -> u64 {
+    tier.pick(crate::props::pipeline::total_before_len6(tier), crate::props::pipeline::total(tier, false))
+}
+
 fn deep_params(i: u64) -> (usize, Shape, usize, &'static str) {
     let i = i as usize;
     let which = i % 2;
@@ -279,7 +284,7 @@ impl Property for C07 {
     }
     fn size(&self, tier: Tier) -> u64 {
         let l = layout(tier);
-        l.deep + l.boundary + l.programs
+        l.deep + l.boundary + l.programs + token_total(tier)
     }
     fn budget_ms(&self) -> u64 {
         20_000
@@ -294,9 +299,11 @@ impl Property for C07 {
             format!("deep {} {:?} depth {} {}", ["simple", "basic"][w], s, d, o)
         } else if idx < l.deep + l.boundary {
             boundary_programs()[(idx - l.deep) as usize].clone()
-        } else {
+        } else if idx < l.deep + l.boundary + l.programs {
             let (c, i) = locate(tier, idx - l.deep - l.boundary);
             print(&c.program(i)).unwrap_or_default()
+        } else {
+            crate::props::pipeline::item_text(&crate::props::pipeline::item(tier, false, idx - l.deep - l.boundary - l.programs))
         }
     }
     fn crash_signature(&self, tier: Tier, idx: u64, kind: &str) -> (String, String, Value) {
@@ -330,6 +337,23 @@ impl Property for C07 {
             cx.sample_at(7919, || json!({"boundary": src}));
             return;
         }
+        if idx >= l.deep + l.boundary + l.programs {
+            // accepted inputs of the C03/C04 token corpora
+            let it = crate::props::pipeline::item(tier, false, idx - l.deep - l.boundary - l.programs);
+            if let crate::props::pipeline::Item::Text(..) = it {
+                let src = crate::props::pipeline::item_text(&it);
+                let mut d = SData::fresh(Host::none());
+                match compile(&src, &mut d) {
+                    Ok((pr, _)) if !pr.get_nodes().is_empty() => {
+                        check_text(cx, &src);
+                        cx.nontrivial(&src);
+                        cx.count("token_inputs_run", 1);
+                    }
+                    _ => cx.count("token_inputs_not_accepted", 1),
+                }
+            }
+            return;
+        }
         let (c, i) = locate(tier, idx - l.deep - l.boundary);
         if let Some(src) = print(&c.program(i)) {
             check_text(cx, &src);
@@ -361,7 +385,7 @@ impl Property for C07 {
     fn meta(&self, tier: Tier) -> Meta {
         let l = layout(tier);
         Meta {
-            rule: format!("(a) the {} programs of the C01 corpora; (b) {} boundary programs: every prefix/suffix operator on, and every binary operator (ranges, casts, concatenation, partial apply, conditionals included) between, 24 boundary literals (i32 limits, 31/32/33/64, huge float, empty and multi-byte text, empty bytes, symbol, unit, list, keyed list, range, concatenation), casts to the type of each literal, and index / apply / slice / slice-of-slice families over 6 container kinds x 8 boundary indexes; each run to completion (step cap 2 000) on both implementations under hosts {{none, declining, accepting}} with a mixed keyed/unkeyed list as input; (c) {} deep-data cases: pairs (left/right nested), lists and concatenations nested 10/100/1 000/10 000 deep built through the data API, then Equal (self, copy), LessThan, casts to CharList/ByteList/Symbol, `.|`, clone_data as single instructions. Verdict: no panic unwinds, no abort, no hang (supervised). Non-trivial: every case; distinct by text / parameters.", l.programs, l.boundary, l.deep),
+            rule: format!("(a) the {} programs of the C01 corpora and every accepted input of the C03/C04 token corpora (K1, K2, K4, K5; lengths up to 5 in the quick tier, all in the thorough tier); (b) {} boundary programs: every prefix/suffix operator on, and every binary operator (ranges, casts, concatenation, partial apply, conditionals included) between, 24 boundary literals (i32 limits, 31/32/33/64, huge float, empty and multi-byte text, empty bytes, symbol, unit, list, keyed list, range, concatenation), casts to the type of each literal, and index / apply / slice / slice-of-slice families over 6 container kinds x 8 boundary indexes; each run to completion (step cap 2 000) on both implementations under hosts {{none, declining, accepting}} with a mixed keyed/unkeyed list as input; (c) {} deep-data cases: pairs (left/right nested), lists and concatenations nested 10/100/1 000/10 000 deep built through the data API, then Equal (self, copy), LessThan, casts to CharList/ByteList/Symbol, `.|`, clone_data as single instructions. Verdict: no panic unwinds, no abort, no hang (supervised). Non-trivial: every case; distinct by text / parameters.", l.programs, l.boundary, l.deep),
             assumptions: vec![
                 "an Err returned by a step is acceptable; only unwinding, aborting and exceeding the wall budget are violations".into(),
                 "a worker that aborts (stack overflow) or hangs is attributed to the in-flight element by the supervisor and confirmed in a fresh process".into(),
